@@ -7,7 +7,7 @@ CONSTANTS
   NewObjs <- MCNewObjs
   MaxDepth = 3
   Starts <- StartsRes
-  Allowed = {"delete.array.dup", "delete.streamdict", "delete.trailer", "resources.shadow", "contents.refToArray"}
+  Allowed = {}
   Emit = TRUE
   EmitMod = 100
   EmitModV = 20
